@@ -414,7 +414,7 @@ def surrogate_case(case_seed, res):
     root = scen.new_root()
     try:
         ch = scen.gen_chain(rng, root, n_steps=1, n_insp=0, thresholds=(1,), max_funcs=1, fmt_mode="mixed")
-        ch.readme = rng.choice(["Mise \u00e0 jour de la cha\u00eene", "\u65e5\u672c\u8a9e", "na\u00efve \U0001F600"])
+        ch.readme = rng.choice(["Mise \u00e0 jour de la cha\u00eene", "\u65e5\u672c\u8a9e", "na\u00efve \U0001F600", "pourquoi ? voil\u00e0", "what? why?"])
         ch.steps[0]["rules"] = ([["ALLOW", "*"]], [["DISALLOW", "*.cl\u00e9"], ["ALLOW", "*"]])
         scn = scen.build(ch, root, rng)
         honest = scn.run_impl(root=root)
@@ -438,6 +438,53 @@ def surrogate_case(case_seed, res):
                                   "impl": short(i)})
 
 
+def falsy_member_case(case_seed, res, no):
+    """A member of the signed layout whose value is empty (readme "", inspect [], a step's expected_command [] ...) is
+    replaced, after signing, by an empty value of ANOTHER kind (null, 0, false, "", [], {}): other signed content. A reader
+    that takes any falsy value for "absent" and puts the default back would rebuild the signed bytes and accept it.
+    Oracle only; the (member, replacement) pairs are cycled through by `no`, not drawn."""
+    import random
+    rng = random.Random(case_seed)
+    root = scen.new_root()
+    try:
+        ch = scen.gen_chain(rng, root, n_steps=rng.choice([1, 2]), n_insp=0, thresholds=(1,), max_funcs=1, fmt_mode="mixed")
+        ch.readme = ""
+        if no % 2:
+            ch.layout_fmt = "metablock"      # (the format that rebuilds the signed bytes from the parsed object)
+        scn = scen.build(ch, root, rng)
+        honest = scn.run_impl(root=root)
+        c = copy.deepcopy(scn.layout)
+        body = c["signed"] if "signed" in c else json.loads(base64.b64decode(c["payload"]))
+        paths = [pth for pth in [("readme",), ("inspect",)] + [("steps", i, k) for i, st in enumerate(body.get("steps") or [])
+                                                                 for k in ("expected_command", "expected_materials", "expected_products")]
+                 if pth[-1] in (scen.get_at(body, pth[:-1]) if len(pth) > 1 else body) and not scen.get_at(body, pth)]
+        # (the layout's own `inspect` / `steps` lists are rebuilt by iterating over the member: "" and {} yield the same
+        #  empty list - the same parsed layout, DESIGN 10.3 "what counts as content" - and are left out there)
+        pairs = [(pth, v) for pth in paths for v in scen.FALSY
+                 if type(v) is not type(scen.get_at(body, pth)) and not (pth == ("inspect",) and v in ("", {}))]
+        if not pairs:
+            return
+        pth, new = pairs[(no // 2) % len(pairs)]
+        old = scen.get_at(body, pth)
+        scen.set_at(body, pth, new)
+        if "signed" not in c:
+            c["payload"] = base64.b64encode(json.dumps(body, sort_keys=True).encode("utf8")).decode()
+        scn.layout = c
+        i = scn.run_impl(root=root)
+    finally:
+        scen.drop_root(root)
+    acc_h = honest.get("load") == "ok" and "ok" in honest["result"]
+    acc = i.get("load") == "ok" and "ok" in i["result"]
+    case = {"op": "falsy_member", "case_seed": case_seed, "no": no, "layout_fmt": ch.layout_fmt, "edit": {"path": list(pth), "old": old, "new": new}}
+    res.case({"family": "falsy_member", "layout_fmt": ch.layout_fmt, "edit": case["edit"], "impl": short(i)}, True, acc_h and not acc)
+    res.count("family_falsy_member")
+    if not acc_h:
+        res.fail("disagree", case, {"op": "falsy_member", "why": "the unedited layout was not accepted", "impl": short(honest)})
+    elif acc:
+        res.fail("oracle", case, {"why": "a layout with an empty member replaced, after signing, by an empty value of another kind "
+                                  "(%r -> %r at %s) was accepted" % (old, new, "/".join(map(str, pth))), "impl": short(i)})
+
+
 FAMILIES = ["keys", "expiry", "leaf", "leaf", "parse_equal", "sig", "honest"]
 
 
@@ -455,6 +502,9 @@ def shard(seed, idx, n, tier):
         cli_case(rng.randrange(10**9), res)
     for _ in range(max(2, n // 12)):
         surrogate_case(rng.randrange(10**9), res)
+    per = max(3, n // 6)
+    for j in range(per):
+        falsy_member_case(rng.randrange(10**9), res, idx * per + j)
     from harness import clicall       # which keys, directory and time limit in-toto-verify hands to the library
     for _ in range(max(3, n // 8)):
         clicall.one_other(rng, res, "verify")
@@ -535,6 +585,10 @@ def replay(case):
     if case.get("op") == "surrogate_edit":
         res = core.Result()
         surrogate_case(case["case_seed"], res)
+        return {"case": case, "samples": res.samples, "failures_on_replay": res.failures}
+    if case.get("op") == "falsy_member":
+        res = core.Result()
+        falsy_member_case(case["case_seed"], res, case["no"])
         return {"case": case, "samples": res.samples, "failures_on_replay": res.failures}
     if case.get("op") == "cli_keys":
         res = core.Result()
